@@ -20,6 +20,8 @@ func reportStress(prefix string, cfg stressCfg, res *stressResult, params map[st
 	out.Count(prefix+".received", res.Received)
 	out.Count(prefix+".order_keys", res.OrderKeys)
 	out.Count(prefix+".exactly_once_streams", res.Complete)
+	out.Count(prefix+".waits_for_ring_space", res.SpaceWaits)
+	out.Count(prefix+".waits_for_ring_data", res.DataWaits)
 	out.Count(prefix+".churned_connections", res.Churns)
 	out.Count(prefix+".retained_received", res.Retained)
 }
@@ -37,7 +39,7 @@ func TestC17(t *testing.T) {
 		}
 		seed := caseSeed("c17", g)
 		r := spec.NewRand(seed)
-		cfg := stressCfg{Seed: seed, Publishers: 2 + r.Intn(11), Subscribers: 2 + r.Intn(5), Msgs: pick(150, 400), Retained: g%3 == 0, Churn: g%2 == 0,
+		cfg := stressCfg{Seed: seed, Publishers: 2 + r.Intn(11), Subscribers: 4 + r.Intn(4), Msgs: pick(150, 400), Retained: g%3 == 0, Churn: g%2 == 0,
 			InProc: g % 3, Fragment: g%4 != 3, GOMAXPROCS: []int{2, 4, 16}[g%3], BufferSize: 16384}
 		if raceEnabled {
 			cfg.Msgs = pick(60, 150)
